@@ -187,3 +187,24 @@ Definition timeout_of (s : st) (c : ctx) : Z :=
   | Some ms => ns_per_ms * ms      (* time.Millisecond * Duration(ms); wraps beyond int64, ignored *)
   | None => default_timeout_ms * ns_per_ms
   end.
+
+(** ** a call, at the level of contexts (C09): the request headers of context [i] are written
+    (WriteRequestHeader = marshal of RequestHeaders()), travel, and are read by protocol object [p]
+    (ReadRequestHeader); the reply's response headers of the server-side context [j] are written
+    and merged into the caller's context [i] (ReadResponseHeader). The wire is Model/Headers.v. *)
+Definition send_request (s : st) (i p : nat) : option st :=
+  match ctx_at s i with
+  | Some c => match read_header (marshal (req_of s c)) with
+              | Ok (hdrs, _) => step s (ORecv p hdrs)
+              | _ => None
+              end
+  | None => None
+  end.
+Definition send_response (s : st) (j i : nat) : option st :=
+  match ctx_at s j with
+  | Some c => match read_header (marshal (resp_of s c)) with
+              | Ok (hdrs, _) => step s (OReadResp i hdrs)
+              | _ => None
+              end
+  | None => None
+  end.
